@@ -896,9 +896,9 @@ class Models:
 
     def foreign_attr(self, W, obj, name, raw):
         if isinstance(obj, re.Pattern):
-            if name in ("finditer", "match", "search", "fullmatch"):
+            if name in ("finditer", "match", "search", "fullmatch", "split", "findall", "sub", "subn"):
                 return NativeBound(obj, name)
-            if name in ("pattern", "flags", "groups"):
+            if name in ("pattern", "flags", "groups", "groupindex"):
                 return getattr(obj, name)
         m = self.eng.foreign_models.get((type(obj), name))
         if m is None:
@@ -1154,10 +1154,18 @@ class Models:
         if isinstance(obj, logging.Logger):
             return None
         if isinstance(obj, re.Pattern):
-            from .regex import regex_once, SFindIter
+            from .regex import regex_once, SFindIter, regex_split, regex_findall, regex_sub
             flags = obj.flags & ~re.UNICODE
             if name == "finditer":
                 return SFindIter(obj.pattern, args[0], int(flags))
+            if name == "split":
+                return regex_split(self.I, W, obj, args[0], int(args[1] if len(args) > 1 else kwargs.get("maxsplit", 0)))
+            if name == "findall":
+                return regex_findall(self.I, W, obj, args[0])
+            if name in ("sub", "subn"):
+                return regex_sub(self.I, W, obj, args[0], args[1], int(args[2] if len(args) > 2 else kwargs.get("count", 0)), 0, name == "subn")
+            if name not in ("match", "search", "fullmatch"):
+                raise Unsupported(f"re.Pattern.{name}")
             return regex_once(self.I, W, name, obj.pattern, args[0], int(flags))
         if nb.via is not None:
             # super().__init__ etc. resolved on a builtin base
@@ -1235,8 +1243,24 @@ class Models:
         def m_compile(W, a, k):
             return native(re.compile, *a, **k)
 
+        def m_split(W, a, k):
+            from .regex import regex_split
+            return regex_split(M.I, W, a[0], a[1], int(a[2] if len(a) > 2 else k.get("maxsplit", 0)), int(a[3] if len(a) > 3 else k.get("flags", 0)))
+
+        def m_findall(W, a, k):
+            from .regex import regex_findall
+            return regex_findall(M.I, W, a[0], a[1], int(a[2] if len(a) > 2 else k.get("flags", 0)))
+
+        def m_sub(want_n):
+            def f(W, a, k):
+                from .regex import regex_sub
+                return regex_sub(M.I, W, a[0], a[1], a[2], int(a[3] if len(a) > 3 else k.get("count", 0)),
+                                 int(a[4] if len(a) > 4 else k.get("flags", 0)), want_n)
+            return f
+
         t = {warnings.warn: noop, re.finditer: m_finditer, dataclasses.is_dataclass: m_is_dataclass,
-             re.match: m_re("match"), re.search: m_re("search"), re.fullmatch: m_re("fullmatch"), re.compile: m_compile}
+             re.match: m_re("match"), re.search: m_re("search"), re.fullmatch: m_re("fullmatch"), re.compile: m_compile,
+             re.split: m_split, re.findall: m_findall, re.sub: m_sub(False), re.subn: m_sub(True)}
         for nm in ("debug", "info", "warning", "error", "critical", "exception", "log"):
             t[getattr(logging, nm)] = noop
         return t
